@@ -498,6 +498,9 @@ class Impl:
              "goto": s.setSequencingGoto}
         m[op["field"]](op["pos"], op["v"])
 
+    def op_sq_setSeqSettings(self, op):
+        self.g(op["id"]).setSequenceSettings(op["pos"], op["wait"], op["nreps"], op["jump"], op["goto"])
+
     def op_sq_setName(self, op):
         self.g(op["id"]).name = op["name"]
 
